@@ -8,6 +8,12 @@ _OVERLAY = {
 }
 _PKG = "./internal/rules/mechanisms/finalizers"
 
+# C16-F1 is open: the implementation is compared with the unrepaired variant of the model (`check false`).
+# After fixes/C16-F1.diff has been applied as a fix: commit, set this to True (and move the finding to "fixed").
+# VERIF_C16_FIXED=1 does the same for a single run (used to test the repair in a scratch worktree).
+import os as _os
+_FIXED_F1 = bool(_os.environ.get("VERIF_C16_FIXED"))
+
 P = {
     "id": "C16",
     "claimed": True,
@@ -19,7 +25,7 @@ P = {
                  "C16_consistent_pair", "C16_sign_sees_one_load", "C16_torn_skeleton_refuted"],
     "streams": [{
         "name": "histories", "pkg": _PKG, "test": "TestVerifC16",
-        "overlay": _OVERLAY, "eval_module": "Run.Eval_C16", "check_term": "check false",
+        "overlay": _OVERLAY, "eval_module": "Run.Eval_C16", "check_term": "check true" if _FIXED_F1 else "check false",
         "n_quick": 600, "n_thorough": 12000, "findings": {1: "C16-F1"}, "shard": 100,
     }, {
         "name": "skeleton", "pkg": _PKG, "test": "TestVerifC16Skel",
